@@ -19,7 +19,10 @@ RULE = ('one case = one span program: StartSpan(name, kind, system/steady start 
         'duplicate keys, 0-3 links with own attributes) on a provider with 1-8 processors of mixed kinds (simple / batch flushed '
         'later), then 0-40 operations (SetAttribute with every AttributeValue alternative, the four AddEvent overloads, SetStatus, '
         'UpdateName, End with/without steady time, ForceFlush, IsRecording; operations after End and repeated End in most programs; '
-        'a tenth of the programs run every op on another thread), then ~Span and a final ForceFlush. Every caller buffer is an '
+        'a tenth of the programs run every op on another thread, one at a time; a seventh contain a CONCURRENT section in which 2-4 '
+        'real threads apply their mutators to the one span at the same time - keys / event names are per thread, so every '
+        'interleaving must give the same record up to the relative order of events of different threads, which is printed '
+        'grouped), then ~Span and a final ForceFlush. Every caller buffer is an '
         'exact-size heap block freed right after the call. non-trivial = the program has at least one operation and is accepted; '
         'distinct = distinct case line')
 TRUSTED = ['harness exporter/canonicaliser (renders SpanData at Export time; clock-dependent times printed as now/auto)',
@@ -129,7 +132,7 @@ def r_time(rng, hi):
     return rng.randrange(1, hi)
 
 
-def gen_program(rng, big=False, threaded=False, nprocs=None):
+def gen_program(rng, big=False, threaded=False, nprocs=None, par=False):
     pool = [b'k', b'a', b'key.two', b'', b'k\x00x', b'\xff\xfe', b'a.b.c'][:rng.randrange(2, 8)]
     np = nprocs or rng.choice([1, 1, 2, 2, 3, 4, 4, rng.randrange(1, 9)])
     procs = ''.join(rng.choice('sb') for _ in range(np))
@@ -176,6 +179,25 @@ def gen_program(rng, big=False, threaded=False, nprocs=None):
             ops.append('isrec')
     if threaded:
         ops = [f'@{rng.randrange(4)} {o}' for o in ops]
+    if par:
+        # a concurrent section: 2-4 threads, each with its own keys / event names (first byte = its digit)
+        sec = []
+        for k in rng.sample(range(4), rng.randrange(2, 5)):
+            for _ in range(rng.randrange(1, 7)):
+                nm = bytes([48 + k]) + r_bytes(rng, 4)
+                if rng.random() < 0.55:
+                    sec.append(f'@{k} attr {hx(bytes([48 + k]) + rng.choice([b"", b"a", b"b"]))} {r_value(rng, big)}')
+                else:
+                    kind = rng.choice(['ev', 'evt', 'eva', 'evta'])
+                    o = f'@{k} {kind} {hx(nm)}'
+                    if 't' in kind[2:]:
+                        o += f' {rng.randrange(10**17)}'
+                    if kind.endswith('a'):
+                        o += f' {r_attrs(rng, pool, 3, big)}'
+                    sec.append(o)
+        rng.shuffle(sec)
+        at = rng.randrange(len(ops) + 1)
+        ops = ops[:at] + ['par'] + sec + (['seq'] if at < len(ops) or rng.random() < 0.7 else []) + ops[at:]
     return ' ; '.join([cfg] + ops)
 
 
@@ -220,8 +242,9 @@ def generate(rng, tier):
     n = 150000 if big else 10000
     for i in range(n):
         threaded = rng.random() < 0.1
-        line = gen_program(rng, big, threaded)
-        tags = ['program', 'threaded' if threaded else 'single-thread']
+        par = rng.random() < 0.15
+        line = gen_program(rng, big, threaded, par=par)
+        tags = ['program', 'threaded' if threaded else 'single-thread'] + (['concurrent-section'] if par else [])
         toks = line.split(' ')
         tags.append('procs=' + str(len(toks[1])))
         ops = line.split(' ; ')[1:]
@@ -377,13 +400,24 @@ def spec_expected(line):
             links.append(f'{tid.hex()}/{sid.hex()}/{fl.hex()}{show_map(la)}')
     events, status, ended, end_opt, rec = [], (0, b''), False, None, []
     parsed = []
+    in_par, grouped = False, False
     for o in segs[1:]:
+        tag = None
         if o and o[0].startswith('@'):
-            _int(o[0][1:], 0, 3, signed=False)
+            tag = _int(o[0][1:], 0, 3, signed=False)
             o = o[1:]
         if not o:
             raise Bad('empty op')
         k = o[0]
+        if k in ('par', 'seq') and len(o) == 1:
+            if tag is not None or (k == 'par') == in_par:
+                raise Bad('section')
+            in_par, grouped = k == 'par', True
+            continue
+        if in_par:
+            # only thread-tagged attr / event ops whose key / name starts with the thread's digit
+            if tag is None or k not in ('attr', 'ev', 'evt', 'eva', 'evta') or len(o) < 2 or _hex(o[1])[:1] != bytes([48 + tag]):
+                raise Bad('op in concurrent section')
         if k == 'attr' and len(o) == 3: parsed.append(('attr', _hex(o[1]), spec_value(o[2])))
         elif k == 'ev' and len(o) == 2: parsed.append(('ev', _hex(o[1]), None, []))
         elif k == 'evt' and len(o) == 3: parsed.append(('ev', _hex(o[1]), _int(o[2], *I64), []))
@@ -404,12 +438,12 @@ def spec_expected(line):
         elif ended or o[0] == 'flush':
             continue                     # after End nothing changes
         elif o[0] == 'attr': writes.append((o[1], o[2]))
-        elif o[0] == 'ev': events.append(f'{hx(o[1])}@{spec_time(o[2])}{show_map(o[3])}')
+        elif o[0] == 'ev': events.append((o[1][0] + 1 if o[1] else 0, f'{hx(o[1])}@{spec_time(o[2])}{show_map(o[3])}'))
         elif o[0] == 'status': status = (o[1], o[2])
         elif o[0] == 'name': name = o[1]
     dur = str(end_opt - steady) if (steady != 0 and end_opt not in (None, 0)) else 'auto'
     record = {'name': hx(name), 'kind': str(kind), 'start': spec_time(sys_t if sys_t != 0 else None), 'dur': dur,
-              'attrs': show_map(writes), 'events': '[' + ';'.join(events) + ']', 'links': '[' + ';'.join(links) + ']',
+              'attrs': show_map(writes), 'events': '[' + ';'.join(e for _, e in (sorted(events, key=lambda x: x[0]) if grouped else events)) + ']', 'links': '[' + ';'.join(links) + ']',
               'status': f'{status[0]}/{hx(status[1])}', 'res': hx(res), 'scope': scope}
     return rec, procs, record
 
@@ -487,7 +521,8 @@ LEVEL_NOTE = ('Trusted: Lean kernel; axioms propext/Quot.sound/Classical.choice 
               'canonicalisation of clock readings (now/auto). Partial: (1) "owned copies" is a lifetime fact - the theorems give '
               'value equality at export time, ownership is evidenced by the ASan-clean free-after-call runs; (2) several threads on '
               'one span: theorems are over sequential histories - mu_ makes each mutator and End atomic, so each concurrent '
-              'execution is one of them; the harness runs ops on different threads one at a time; (3) the batch processor is '
+              'execution is one of them; the harness runs ops on different threads one at a time and, in concurrent sections, really '
+              'concurrently with an interleaving-independent expected outcome (ASan only, no TSan); (3) the batch processor is '
               'modelled only as "queued at OnEnd, exported at ForceFlush" (its protocol is C01-C03); (4) span identity is C05.')
 DESIGN_REF = 'DESIGN.md section 4, C04'
 TECHNIQUE = 'proof (Lean 4) + differential correspondence run + implementation-side oracle'
